@@ -36,7 +36,12 @@ type XObject struct {
 
 // NewXObject returns a new object with the given properties
 func NewXObject(properties map[string]XValue) *XObject {
-	return NewXLazyObject(func() map[string]XValue { return properties })
+	o := NewXLazyObject(func() map[string]XValue { return properties })
+
+	// the properties are already known so there's nothing to gain from initializing lazily, and objects which are
+	// shared between sessions (e.g. XObjectEmpty) must not be written to on first read
+	o.ensureInitialized()
+	return o
 }
 
 // NewXLazyObject returns a new lazy object with the source function and default
